@@ -157,16 +157,14 @@ theorem dropAll_fields (l : List Note) : ∀ s : State,
 
 theorem advanceLocal_fields (s : State) :
     (advanceLocal s).conns = (runAll s.conns).1 ∧ (advanceLocal s).gone = s.gone ∧
-    (advanceLocal s).pendQ = s.pendQ ++ s.dialing.map (fun d => (⟨d.id, d.peer, !d.aborted⟩ : PendMsg)) ∧
-    (advanceLocal s).dialing = [] ∧ (advanceLocal s).nextConn = s.nextConn ∧
-    (advanceLocal s).pending = s.pending := by
+    (advanceLocal s).pendQ = s.pendQ ++
+      (s.dialing.filter Dial.ready).map (fun d => (⟨d.id, d.peer, !d.aborted⟩ : PendMsg)) ∧
+    (advanceLocal s).dialing = s.dialing.filter (fun d => !d.ready) ∧
+    (advanceLocal s).nextConn = s.nextConn ∧ (advanceLocal s).pending = s.pending := by
   unfold C07.advanceLocal
   rcases hr : runAll s.conns with ⟨cs, lg, dr⟩
   simp only
-  obtain ⟨a, b, c, d, e, f⟩ := dropAll_fields dr
-    { s with dialing := [], pendQ := s.pendQ ++ s.dialing.map (fun d => (⟨d.id, d.peer, !d.aborted⟩ : PendMsg)),
-             conns := cs, log := s.log ++ lg }
-  exact ⟨a, b, c, d, e, f⟩
+  exact dropAll_fields dr _
 
 theorem pushCmds_fields (cmds : List ECmd) : ∀ s : State,
     (pushCmds s cmds).conns = s.conns ∧ (pushCmds s cmds).gone = s.gone ∧ (pushCmds s cmds).pendQ = s.pendQ ∧
@@ -184,21 +182,22 @@ theorem Ids.updConn {s : State} (h : Ids s) (c : Nat) (f : Conn → Conn) (hf : 
     Ids { s with conns := upd s.conns c f } :=
   h.congr (by simp [State.allIds, cids_upd c f hf]) rfl
 
-theorem dial_ids (l : List Dial) (p : Nat) :
-    (l.map (fun d => if d.peer == p then { d with aborted := true } else d)).map (·.id) = l.map (·.id) := by
+theorem dial_ids (l : List Dial) (f : Dial → Dial) (hf : ∀ d, (f d).id = d.id) :
+    (l.map f).map (·.id) = l.map (·.id) := by
   rw [List.map_map]
   apply List.map_congr_left
   intro d _
-  simp only [Function.comp]
-  split <;> rfl
+  exact hf d
 
-theorem Ids.disconnect {s : State} (h : Ids s) (p : Nat) : Ids (disconnect s p) :=
-  h.congr (by simp only [State.allIds, C07.disconnect, cids_map _ (disc_id s.buf p), dial_ids]) rfl
+theorem Ids.disconnect {s : State} (h : Ids s) (p : Nat) : Ids (disconnect s p) := by
+  refine h.congr ?_ rfl
+  simp only [State.allIds, C07.disconnect, cids_map _ (disc_id s.buf p)]
+  rw [dial_ids]
+  intro d; split <;> rfl
 
-theorem Ids.connect {s : State} (h : Ids s) (p : Nat) :
-    Ids { s with dialing := s.dialing ++ [⟨s.nextConn, p, false⟩], nextConn := s.nextConn + 1 } := by
-  have ha : ({ s with dialing := s.dialing ++ [⟨s.nextConn, p, false⟩], nextConn := s.nextConn + 1 } : State).allIds
-      = s.allIds ++ [s.nextConn] := by simp [State.allIds]
+/-- a new pending connection gets the next id of the counter -/
+theorem Ids.alloc {s : State} (h : Ids s) (p : Nat) (inb res : Bool) : Ids (s.alloc p inb res) := by
+  have ha : (s.alloc p inb res).allIds = s.allIds ++ [s.nextConn] := by simp [State.allIds, State.alloc]
   refine ⟨?_, ?_⟩
   · intro id
     rw [ha, List.count_append, List.count_singleton]
@@ -215,14 +214,23 @@ theorem Ids.connect {s : State} (h : Ids s) (p : Nat) :
     · have := h.bound id hid; show id < s.nextConn + 1; omega
     · simp at hid; show id < s.nextConn + 1; omega
 
+theorem count_partition (l : List Dial) (q : Dial → Bool) (id : Nat) :
+    ((l.filter q).map (·.id)).count id + ((l.filter (fun d => !q d)).map (·.id)).count id
+      = (l.map (·.id)).count id := by
+  induction l with
+  | nil => simp
+  | cons d r ih =>
+    cases hq : q d <;> simp [List.filter_cons, hq, List.count_cons] <;> omega
+
 theorem Ids.advanceLocal {s : State} (h : Ids s) : Ids (advanceLocal s) := by
   obtain ⟨a, b, c, d, e, _⟩ := advanceLocal_fields s
   refine h.of_count (by omega) ?_
   intro id
-  simp only [State.allIds, a, b, c, d, cids_runAll, List.map_append, List.map_map, List.count_append,
-    List.map_nil, List.count_nil]
-  have : (s.dialing.map ((fun x : PendMsg => x.id) ∘ fun d => (⟨d.id, d.peer, !d.aborted⟩ : PendMsg)))
-      = s.dialing.map (·.id) := by
+  have hp := count_partition s.dialing Dial.ready id
+  simp only [State.allIds, a, b, c, d, cids_runAll, List.map_append, List.map_map, List.count_append]
+  have : ((s.dialing.filter Dial.ready).map
+      ((fun x : PendMsg => x.id) ∘ fun d => (⟨d.id, d.peer, !d.aborted⟩ : PendMsg)))
+      = (s.dialing.filter Dial.ready).map (·.id) := by
     apply List.map_congr_left; intro d _; rfl
   rw [this]; omega
 
@@ -338,7 +346,7 @@ theorem Mono.reportPending {s : State} (h : Ids s) (m : PendMsg) (hm : m ∈ s.p
       · exact Or.inl (Or.inl hid)
       · exact Or.inr hid
     · intro id hid hd
-      show (match findConn (s.conns ++ [({ id := m.id, peer := m.peer } : Conn)]) id with
+      show (match findConn (s.conns ++ [({ id := m.id, peer := m.peer, estAt := s.clock } : Conn)]) id with
         | some k => k.isLive | none => false) = false
       rw [findConn_append]
       cases hk : findConn s.conns id with
